@@ -393,7 +393,7 @@ def op_add(step, ctx):
     ctx['next_oid'] += 1
     ev = {'op': 'add', 'fid': ctx['lf_fid'].get(step['lf'], 0), 'lf': step['lf'], 'cls': cps(set_type), 'oid': oid,
           'name': cps(step['name']) if isinstance(step['name'], str) else [],
-          'has_setname': step.get('set_name') is not None, 'setname': cps(step.get('set_name') or ''),
+          'has_setname': bool(step.get('set_name')), 'setname': cps(step.get('set_name') or ''),
           'origin': step.get('origin_reference') if step.get('origin_reference') is not None else -1,
           'attrs': [], 'has_data': False, 'soft_only': bool(step.get('soft_only'))}
     kw = {}
@@ -968,11 +968,27 @@ def op_set_header(step, ctx):
     return [ev]
 
 
+def op_mutate_array(step, ctx):
+    """The caller changes one of its arrays in place between two writes; from now on the program holds the new content."""
+    ev = {'op': 'mutate_array', 'aid': step['aid'], 'outcome': 'ok', 'hc': hc_flag()}
+    try:
+        live = get_array(step['aid'], ctx)
+        new = np.frombuffer(bytes.fromhex(step['hex']), dtype=live.dtype).reshape(live.shape)
+        live[...] = new
+        spec = dict(ctx['prog']['arrays'][step['aid']])
+        spec['hex'] = step['hex']
+        ctx['prog']['arrays'][step['aid']] = spec            # later expectations are computed from the new content
+    except Exception as e:  # noqa
+        ev['outcome'] = 'raised'
+        ev['exc'] = exc_text(e)
+    return [ev]
+
+
 def op_mark(step, ctx):
     return [{'op': 'mark', 'what': step.get('what', ''), 'outcome': 'ok', 'hc': hc_flag()}]
 
 
-OPS = {'mark': op_mark, 'probe': op_probe, 'set_header': op_set_header, 'nofmt_replace': op_nofmt_replace, 'set_sul': op_set_sul, 'script': op_script, 'attr': op_attr, 'lowwrite': op_lowwrite, 'new_file': op_new_file, 'add_lf': op_add_lf, 'add': op_add, 'set': op_set,
+OPS = {'mark': op_mark, 'probe': op_probe, 'mutate_array': op_mutate_array, 'set_header': op_set_header, 'nofmt_replace': op_nofmt_replace, 'set_sul': op_set_sul, 'script': op_script, 'attr': op_attr, 'lowwrite': op_lowwrite, 'new_file': op_new_file, 'add_lf': op_add_lf, 'add': op_add, 'set': op_set,
        'nofmt_data': op_nofmt_data, 'hc_enter': op_hc, 'hc_exit': op_hc, 'hc_exit_exc': op_hc,
        'hc_decorated': op_hc_decorated, 'write': op_write, 'encode': op_encode}
 
